@@ -89,6 +89,13 @@ class Cmp(V):
     left: V
     right: V
 
+    def col_left(self) -> "Cmp":
+        """The same comparison with the column operand on the left."""
+        if not isinstance(self.left, (Col, Agg)) and isinstance(
+                self.right, (Col, Agg)):
+            return Cmp(FLIP[self.op], self.right, self.left)
+        return self
+
     def nf(self) -> str:
         l, r, op = self.left, self.right, self.op
         if not isinstance(l, (Col, Agg)) and isinstance(r, (Col, Agg)):
